@@ -69,6 +69,8 @@ fn ops() -> Vec<Op> {
             v.push(Op::Set(s(sec), o(sub), s("k"), B(val.to_vec())));
             v.push(Op::Push(s(sec), o(sub), s("k"), B(val.to_vec())));
         }
+        // comment characters inside and at the end of a word (no surrounding whitespace that would force quotes anyway)
+        v.push(Op::Set(s(sec), o(sub), s("k"), B(b"u#v;w#".to_vec())));
         v.push(Op::SetAll(s(sec), o(sub), s("k"), B(b"z".to_vec())));
         v.push(Op::RemoveValue(s(sec), o(sub), s("k")));
         v.push(Op::DeleteAll(s(sec), o(sub), s("k")));
@@ -443,6 +445,156 @@ fn memory_eval(h: &History) -> vkit::Verdict {
     }
 }
 
+// ---- sub `values`: every value string through every value-writing API, read back by gitoxide and git ----
+#[derive(Serialize, Deserialize, Hash, Clone, Debug)]
+struct ValueCase {
+    value: B,
+}
+const VALUE_BASE: &[u8] = b"[a]\n\tk = old\n\tm = one\n\tm = two\n\tv = old # c\n\tlast = keep\n";
+/// (key, API that wrote it)
+const VALUE_KEYS: [(&str, &str); 5] = [
+    ("k", "SectionMut::set on an existing key (File::set_raw_value_by)"),
+    ("n", "File::set_raw_value_by on a new key"),
+    ("p", "SectionMut::push"),
+    ("m", "MultiValueMut::set_all"),
+    ("v", "ValueMut::set"),
+];
+
+/// Write `value` through 5 APIs into one file. Ok(text) after gitoxide's own re-read agreed.
+fn values_write_and_reread(value: &[u8]) -> Result<Vec<u8>, String> {
+    let v = value.as_bstr();
+    let text = vkit::catch(|| -> Result<Vec<u8>, String> {
+        let mut file = load(VALUE_BASE).map_err(|e| format!("base: {e}"))?;
+        file.set_raw_value_by("a", None, "k".to_string(), v).map_err(|e| e.to_string())?;
+        file.set_raw_value_by("a", None, "n".to_string(), v).map_err(|e| e.to_string())?;
+        {
+            let mut sec = file.section_mut("a", None).map_err(|e| e.to_string())?;
+            let key = gix_config::parse::section::ValueName::try_from("p".to_string()).map_err(|e| e.to_string())?;
+            sec.push(key, Some(v));
+        }
+        file.raw_values_mut_by("a", None, "m").map_err(|e| e.to_string())?.set_all(v);
+        file.raw_value_mut_by("a", None, "v").map_err(|e| e.to_string())?.set(v);
+        Ok(file.to_bstring().into())
+    });
+    let text = match text {
+        Ok(Ok(t)) => t,
+        Ok(Err(e)) => return Err(format!("api-error: setting {}: {e}", show(value))),
+        Err(p) => return Err(format!("panic: setting {}: {p}", show(value))),
+    };
+    let file = load(&text).map_err(|e| format!("unparseable: setting {} wrote {} which does not parse: {e}", show(value), show(&text)))?;
+    for (key, api) in VALUE_KEYS {
+        let got: Vec<Vec<u8>> = file.raw_values_by("a", None, key).map(|v| v.into_iter().map(|c| c.to_vec()).collect()).unwrap_or_default();
+        let want: Vec<&[u8]> = if key == "m" { vec![value, value] } else { vec![value] };
+        if got.iter().map(|g| g.as_slice()).collect::<Vec<_>>() != want {
+            return Err(format!(
+                "value-changed: {api}: set a.{key} = {} wrote {}; gitoxide reads back {:?}",
+                show(value),
+                show(&text),
+                got.iter().map(|g| show(g)).collect::<Vec<_>>()
+            ));
+        }
+    }
+    // the untouched neighbour and the comment survive
+    if file.raw_values_by("a", None, "last").map(|v| v.into_iter().map(|c| c.to_vec()).collect::<Vec<_>>()).unwrap_or_default() != vec![b"keep".to_vec()] {
+        return Err(format!("value-changed: setting {} wrote {}: untouched key a.last changed", show(value), show(&text)));
+    }
+    drop(file);
+    Ok(text)
+}
+
+/// git's reading of the written file must give the value that was set for all 5 keys.
+fn values_git_check(value: &[u8], text: &[u8], git: &Option<Flat>) -> Result<(), String> {
+    let Some(git) = git else { return Err(format!("git-rejects: setting {} wrote {} which git config refuses", show(value), show(text))) };
+    for (key, api) in VALUE_KEYS {
+        let full = format!("a.{key}");
+        let got: Vec<&[u8]> = git.iter().filter(|(k, _)| k == full.as_bytes()).map(|(_, v)| v.as_deref().unwrap_or(b"<implicit>")).collect();
+        let want: Vec<&[u8]> = if key == "m" { vec![value, value] } else { vec![value] };
+        if got != want {
+            return Err(format!(
+                "git-value-changed: {api}: set a.{key} = {} wrote {}; git config reads back {:?}",
+                show(value),
+                show(text),
+                got.iter().map(|g| show(g)).collect::<Vec<_>>()
+            ));
+        }
+    }
+    Ok(())
+}
+
+fn values_sub(run: &'static Run) {
+    let toks: [&[u8]; 9] = [b"a", b"#", b";", b" ", b"b", b"\"", b"\\", b"\t", b"\n"];
+    let len = run.pick(4usize, 5);
+    let written: std::sync::Mutex<Vec<(ValueCase, Vec<u8>)>> = Default::default();
+    let dir = vkit::scratch::Dir::new("c28v");
+    run.sub(
+        "values",
+        |emit| {
+            // explicit realistic shapes first, then the whole token space
+            for v in ["https://example.com/repo.git#main", "a;b", "trailing#", "x;", "# x", "a #b", "a#b", "a ;b", "x #", "#", ";"] {
+                emit(ValueCase { value: B(v.as_bytes().to_vec()) });
+            }
+            vkit::enumerate::strings(&toks, 0, len, |s| emit(ValueCase { value: B(s.to_vec()) }));
+        },
+        |c: &ValueCase| -> vkit::Verdict {
+            let text = match values_write_and_reread(&c.value) {
+                Ok(t) => t,
+                Err(m) => return Err(m),
+            };
+            if run.is_replay() {
+                let g = git_lists(dir.path(), &[&text]);
+                values_git_check(&c.value, &text, &g[0])?;
+            } else {
+                written.lock().unwrap().push((c.clone(), text));
+            }
+            let inner = c.value.windows(2).any(|w| !w[0].is_ascii_whitespace() && (w[1] == b'#' || w[1] == b';'));
+            let any = c.value.iter().any(|b| *b == b'#' || *b == b';');
+            vkit::ok(if inner {
+                "values/comment-char-inside-or-after-word"
+            } else if any {
+                "values/comment-char-at-word-start"
+            } else if c.value.iter().any(|b| b"\"\\\t\n".contains(b)) {
+                "values/needs-escape"
+            } else {
+                "values/plain"
+            })
+        },
+    );
+    if run.is_replay() {
+        return;
+    }
+    // git reads every written file (batched)
+    let written = written.into_inner().unwrap();
+    let chunks: Vec<&[(ValueCase, Vec<u8>)]> = written.chunks(64).collect();
+    let next = std::sync::atomic::AtomicUsize::new(0);
+    let calls = std::sync::atomic::AtomicU64::new(0);
+    std::thread::scope(|sc| {
+        for _ in 0..16 {
+            sc.spawn(|| {
+                let d = vkit::scratch::Dir::new("c28vb");
+                loop {
+                    let i = next.fetch_add(1, std::sync::atomic::Ordering::Relaxed);
+                    let Some(chunk) = chunks.get(i) else { break };
+                    let files: Vec<&Vec<u8>> = chunk.iter().map(|(_, t)| t).collect();
+                    let lists = git_lists(d.path(), &files);
+                    calls.fetch_add(1, std::sync::atomic::Ordering::Relaxed);
+                    for ((case, text), g) in chunk.iter().zip(&lists) {
+                        run.mc_validated(1);
+                        match values_git_check(&case.value, text, g) {
+                            Ok(()) => run.outcome("values/git-reads-what-was-set"),
+                            Err(m) => run.violation("values", case, m),
+                        }
+                    }
+                }
+            });
+        }
+    });
+    run.mc_transitions(written.len() as u64 * 5);
+    run.cov("values_git_batch_calls", calls.load(std::sync::atomic::Ordering::Relaxed));
+    run.cov("values_written_and_read_back", written.len());
+    run.require("values with # or ; inside or at the end of a word were written", run.outcome_count("values/comment-char-inside-or-after-word") > 0);
+    run.require("git read back written values", run.outcome_count("values/git-reads-what-was-set") > 0);
+}
+
 /// What gitoxide reads from `text`, in git's listing form.
 fn gix_flat(text: &[u8]) -> Result<Flat, String> {
     Ok(flat_of_events(&events(text)?))
@@ -516,12 +668,14 @@ fn git_check(text: &[u8], git: &Option<Flat>) -> Result<(), String> {
 pub fn run(run: &'static Run) {
     let depth = run.pick(2usize, 3);
     let mlen = run.pick(2usize, 3);
+    let vlen = run.pick(4usize, 5);
     let files = initial_files();
     let ops = ops();
     run.rule(format!(
         "states = serialized config texts reachable from {} initial files (duplicate sections, comments, CRLF + continuation + implicit boolean, upper case + legacy header, header and key on one line + empty section, no final newline, empty file, continuation-line values with 1 and 2 continuations with/without trailing comment placed before other keys incl. a repeated key name, CRLF continuation before another key) by <= {depth} edits; \
-         {} edits: set/push (2 values: `1` and one needing quotes+escapes) / set-all / remove / delete-all of key k in a, a.b, c and of its neighbour j in a, c; new/remove section a, a.b, c; 4 renames; breadth-first with dedup on the text. \
+         {} edits: set/push (values `1`, one needing quotes+escapes, and for set `u#v;w#` with comment characters inside/at the end of a word) / set-all / remove / delete-all of key k in a, a.b, c and of its neighbour j in a, c; new/remove section a, a.b, c; 4 renames; breadth-first with dedup on the text. \
          + remove_section_by_id of the first/middle/last section named a / a.b; \
+         sub `values`: 11 realistic values + every string of <= {vlen} tokens over (a # ; SP b '\"' '\\' TAB LF) written through SectionMut::set (existing key), set_raw_value_by (new key), SectionMut::push, MultiValueMut::set_all and ValueMut::set into one file, serialized, then read back by gitoxide (raw_values_by) AND by `git config -f --list -z`: all must return exactly the value that was set, the neighbour key must keep its value; \
          sub `memory`: every sequence of 2..={mlen} of these edits applied to ONE in-memory File per initial file (no reload in between), result compared with the model applied step by step; \
          each transition: parse state -> one real API call -> to_bstring; validated against an ordered-list reference model (sections, keys, values), comment preservation per section, and `git config --list -z` on every distinct new state",
         files.len(),
@@ -531,6 +685,9 @@ pub fn run(run: &'static Run) {
     run.assume("comments of a section from which a value was removed are not compared (a same-line comment may go with the value); every other comment must survive in its section, in order");
     run.assume("git 2.39.5 lists the written text (batched through an include file, --show-origin); it must equal gitoxide's own reading of that text, which in turn must equal the model");
     run.budget_secs(run.pick(36.0, 560.0));
+
+    // ---- sub `values`: value alphabet through every value-writing API ----
+    values_sub(run);
 
     // ---- sub `memory`: all sequences of edits on one in-memory File ----
     {
